@@ -111,6 +111,18 @@ func (h *chunkHeartbeat) Marshal() ([]byte, error) {
 	return h.chunkHeader.marshal()
 }
 
+// marshal implements the chunk interface. Without it the embedded
+// chunkHeader.marshal is promoted and a HEARTBEAT sent through a packet is
+// serialized with an empty body, so the peer never answers it.
+func (h *chunkHeartbeat) marshal() ([]byte, error) {
+	if len(h.params) == 0 {
+		// an empty HEARTBEAT (accepted by unmarshal) is just the chunk header.
+		return h.chunkHeader.marshal()
+	}
+
+	return h.Marshal()
+}
+
 func (h *chunkHeartbeat) check() (abort bool, err error) {
 	return false, nil
 }
